@@ -39,7 +39,8 @@ def directed(rng: random.Random) -> dict:
     body: list = [{"k": "org", "e": E(0x8000)}]
     kind = rng.choice(["capture_eager", "capture_deferred", "forward_label", "local_labels", "recursion", "code_block", "undefined_macro",
                        "too_few", "nested", "zero_params", "shadow_outer", "arg_uses_later_param", "param_shadows_global_unsized",
-                       "mixed_immediate_and_deferred", "splice_in_nested_scope", "undefined_macro_nested", "macro_and_scope_same_name"])
+                       "mixed_immediate_and_deferred", "splice_in_nested_scope", "undefined_macro_nested", "macro_and_scope_same_name",
+                       "argument_names_later_nearer_label", "named_scope_in_body"])
     expect_reject = False
     if kind == "capture_eager":
         body += [{"k": "macro", "n": "macA", "ps": ["pa", "pb"], "b": [db(E("pa"), E("pb"))]},
@@ -71,6 +72,23 @@ def directed(rng: random.Random) -> dict:
         body += [{"k": "macro", "n": "macW", "ps": ["pw"], "b": [db(7), {"k": "splice", "n": "pw"}]},
                  {"k": "macro", "n": "macP", "ps": ["pn", "pcode"], "b": [db(E("pn")), inner]},
                  {"k": "call", "n": "macP", "as": [E(rng.choice([1, 2, 3])), {"blk": [db(0x55), {"k": "ins", "m": "nop", "shape": "imp", "sz": "", "e": None}]}]}]
+    elif kind == "argument_names_later_nearer_label":
+        # the argument names a label that the enclosing block (or an enclosing macro body) defines further down, while a label of the same
+        # name is already visible from an outer scope above: the argument means the nearest definition, as it would written in place
+        ptr = {"k": "macro", "n": "ptrm", "ps": ["pv"], "b": [{"k": "data", "d": "dl", "es": [E("pv")]}]}
+        rec = {"k": "macro", "n": "recm", "ps": ["pq"], "b": [{"k": "call", "n": "ptrm", "as": [E("skip")]}, db(E("pq")), {"k": "label", "n": "skip"}, db(0xE0)]}
+        body += [ptr, rec, {"k": "label", "n": "done"}, db(0xD0), {"k": "label", "n": "skip"}, db(0xD1),
+                 {"k": "block", "b": [{"k": "call", "n": "ptrm", "as": [E("done")]}, db(1, 2), {"k": "label", "n": "done"}, db(3), {"k": "call", "n": "ptrm", "as": [E("done")]}]},
+                 {"k": "call", "n": "recm", "as": [E(4)]}, {"k": "call", "n": "ptrm", "as": [E("done")]}, {"k": "call", "n": "ptrm", "as": [E("skip", "+", 1)]},
+                 {"k": "scope", "n": "nsq", "b": [{"k": "call", "n": "ptrm", "as": [E("done")]}, {"k": "label", "n": "done"}, db(5)]}]
+    elif kind == "named_scope_in_body":
+        # a named scope inside the body belongs to one application: its qualified names are local to it
+        body += [{"k": "macro", "n": "entry", "ps": ["pv"], "b": [{"k": "data", "d": "dw", "es": [E("record.payload")]},
+                                                                  {"k": "scope", "n": "record", "b": [db(E("pv")), {"k": "label", "n": "payload"}, db(E("pv", "+", 1))]},
+                                                                  {"k": "data", "d": "dw", "es": [E("record.payload")]}]}]
+        body += [{"k": "call", "n": "entry", "as": [E(0x10 * i)]} for i in range(1, rng.randint(3, 5))]
+        if rng.random() < 0.5:
+            body += [{"k": "scope", "n": "record", "b": [{"k": "label", "n": "payload"}, db(0x77)]}, {"k": "data", "d": "dw", "es": [E("record.payload")]}]
     elif kind == "capture_deferred":
         # the argument mentions a label whose name equals a parameter name: it must mean the call site's label
         body += [{"k": "macro", "n": "macA", "ps": ["pa", "pb"], "b": [{"k": "data", "d": "dl", "es": [E("pa"), E("pb")]}]},
